@@ -51,6 +51,7 @@ def run(ctx):
     try:
         check(ctx, mod, fn)
         normaliser_guard(ctx, mod, fn)
+        gains_on_every_exit(ctx, mod, fn)
     except Unsupported as e:
         rep.unk('F5', fn.name, 'outside the affine fragment: %s' % e, loc=fn.loc(fn.entry.term))
     except fm.NonLinear as e:
@@ -308,6 +309,58 @@ def normaliser_guard(ctx, mod, fn):
             rep.bad('F5d', fn.name, 'the reciprocal of the sum of joint memberships is taken without testing the sum: with the bounded product max(a+b-1,0) and '
                     'degrees 1/2, 1/2 in both inputs every joint membership is 0, the sum is 0 and kp, ki, kd become NaN', loc=fn.loc(d),
                     key='a_pid_fuzzy_out_: zero normaliser', witness='opr = A_PID_FUZZY_CAP_BOUNDED, three triangular sets on [-1,1], e = ec = 0.5')
+
+
+def gains_on_every_exit(ctx, mod, fn):
+    """F5e: whichever way the scheduler is left - no error set active, no error-change set active, vanishing sum of joint memberships or the
+    full computation - the controller receives base gain + offset for all three gains, the offset being 0 on the early ways out.  Otherwise
+    the gains of the previous step stay in force when an input leaves the universe of discourse."""
+    import stale
+    import effects
+    rep = ctx.rep
+    calls = [i for i in fn.instrs() if i.op == 'call' and effects.callee_name(i) == 'a_pid_set_kpid']
+    rets = [b for b in fn.blocks if b.term.op == 'ret']
+    loc = fn.loc(fn.entry.term)
+    if len(calls) != 1:
+        rep.unk('F5e', fn.name, 'expected one call of a_pid_set_kpid, found %d' % len(calls), loc=loc)
+        return
+    c = calls[0]
+    loc = fn.loc(c)
+    probs = []
+    for rb in rets:
+        if not (rb is c.block or fn.dominates(c.block, rb)):
+            probs.append('a return (%s) is reached without the gains being handed to the controller: the gains of the previous step stay in force' % fn.loc(rb.term))
+    # arguments: base field + offset, offset 0 on the early ways out
+    for k, fname in enumerate(('kp', 'ki', 'kd')):
+        try:
+            fidx = stale.field_index(mod, 'a_pid_fuzzy', fname)
+        except Exception:
+            fidx = None
+        a = c.ops[1 + k] if len(c.ops) > 1 + k else None
+        d = fn.defs.get(a.v) if a is not None and a.k == 'reg' else None
+        if d is None or d.op != 'fadd':
+            probs.append('%s handed to the controller is not base + offset' % fname)
+            continue
+        base_ok, off = False, None
+        for o, other in ((d.ops[0], d.ops[1]), (d.ops[1], d.ops[0])):
+            ld = fn.defs.get(o.v) if o.k == 'reg' else None
+            g = fn.defs.get(ld.ops[0].v) if ld is not None and ld.op == 'load' and ld.ops[0].k == 'reg' else None
+            if g is not None and g.op == 'gep' and len(g.ops) == 3 and g.ops[2].k == 'int' and (fidx is None or g.ops[2].v == fidx):
+                base_ok, off = True, other
+        if not base_ok:
+            probs.append('%s handed to the controller does not start from the base gain ctx->%s' % (fname, fname))
+            continue
+        od = fn.defs.get(off.v) if off.k == 'reg' else None
+        if od is not None and od.op == 'phi':
+            consts = [o for o in od.ops if o.k == 'fp']
+            if any(float(o.v) != 0.0 for o in consts):
+                probs.append('the %s offset on an early way out is %s, expected 0' % (fname, [float(o.v) for o in consts]))
+            if not consts:
+                probs.append('the %s offset has no zero value for the early ways out' % fname)
+    if probs:
+        rep.bad('F5e', fn.name, '; '.join(sorted(set(probs))[:2]), loc=loc, key='a_pid_fuzzy_out_: gains on every exit')
+    else:
+        rep.ok('F5e', fn.name, 'every return is behind a_pid_set_kpid(&pid, kp + dkp, ki + dki, kd + dkd) with offsets 0 on the early ways out (%d returns)' % len(rets), loc=loc)
 
 
 def same_value(fn, a, b, depth=0):
